@@ -239,10 +239,11 @@ theorem failures_fail (clientMax : Nat) (r1 r2 : Reply) (hc : Gen.Version1_0_1 <
   · intro cur max h hne ha
     simp [negotiate, hc', h, hmin, hne, ha]
 
-/-- which replies are failures of the first step -/
+/-- which replies are failures of the first step: every ERROR_MESSAGE other than "unsupported version" — also one that
+carries status Success — is one -/
 theorem supported_none_iff (r : Reply) :
     supported r = none ↔
-      ((∃ c, r = .refused c) ∨ (∃ c, r = .errorMsg c ∧ c ≠ Gen.StatusMsgVerUnsupported ∧ c ≠ Gen.StatusSuccess) ∨
+      ((∃ c, r = .refused c) ∨ (∃ c, r = .errorMsg c ∧ c ≠ Gen.StatusMsgVerUnsupported) ∨
        r = .wrongType ∨ r = .undecodable ∨ r = .oversize ∨ r = .lost) := by
   cases r <;> simp [supported]
 
